@@ -1,6 +1,7 @@
 package actionlint
 
 import (
+	"sort"
 	"strconv"
 	"strings"
 )
@@ -162,7 +163,19 @@ func collectCycle(src *jobNode, edges map[*jobNode]*jobNode) bool {
 // https://inzkyk.xyz/algorithms/depth_first_search/detecting_cycles/
 
 func detectFirstCycle(nodes map[string]*jobNode) *edge {
+	// Start from the nodes in the order of their positions. Which cycle is detected first must not
+	// depend on the iteration order of the map when there are two or more cycles.
+	sorted := make([]*jobNode, 0, len(nodes))
 	for _, v := range nodes {
+		sorted = append(sorted, v)
+	}
+	sort.Slice(sorted, func(i, j int) bool {
+		if sorted[i].pos != nil && sorted[j].pos != nil && *sorted[i].pos != *sorted[j].pos {
+			return sorted[i].pos.IsBefore(sorted[j].pos)
+		}
+		return sorted[i].id < sorted[j].id
+	})
+	for _, v := range sorted {
 		if v.status == nodeStatusNew {
 			if e := detectCyclicNode(v); e != nil {
 				return e
